@@ -120,6 +120,34 @@ func (g *c18Gen) step() {
 		g.add("%s := &T{A: %s, S: \"t\"}", v, g.intExpr())
 		g.structs = append(g.structs, v)
 		g.globals = append(g.globals, v)
+	case k < 9 && g.r.Chance(1, 4) && g.hasType && len(g.ints) > 0:
+		// a function with a local type named like the global type, then package-level blocks that use the global one
+		f := g.name("lt")
+		g.add("func %s() int { type T struct { Q int }; t := &T{Q: %d}; return t.Q }", f, g.r.Intn(9))
+		v := ""
+		for _, x := range g.ints {
+			if x[0] == 'v' {
+				v = x
+			}
+		}
+		if v == "" {
+			return
+		}
+		g.add("if %s() >= 0 { q := &T{A: %d, S: \"b\"}; %s += q.A + q.Double() }", f, g.r.Intn(9), v)
+		g.add("for i := 0; i < 2; i++ { q := &T{A: i}; q.Add(%s()); %s += q.A }", f, v)
+	case k < 9 && g.r.Chance(1, 4) && len(g.ints) > 0:
+		// an init function runs where it stands
+		v := ""
+		for _, x := range g.ints {
+			if x[0] == 'v' {
+				v = x
+			}
+		}
+		if v == "" {
+			return
+		}
+		g.add("func init() { %s = %s*2 + %d }", v, v, g.r.Intn(9))
+		g.add("println(%q, %s)", g.name("o"), v)
 	case k < 9 && g.r.Chance(1, 3):
 		// a function literal that declares a type of its own; several literals use the same type name
 		// (each literal of a program starts at a column of its own: literals at one position of different
@@ -388,7 +416,7 @@ type c18Case struct {
 }
 
 func runC18(r *core.Run) {
-	r.SetRule("generated sequences of 5-15 single-line top-level statements (import, const, var with and without initialiser, :=, typed byte arithmetic, assignments, op-assign, parallel assignment, if/else-if with init, for, range, switch with multi-value cases - all with block-local variables -, function, method and type definitions before use, calls, slice/map/struct mutation, printing, block header variables named like existing globals, function literals declaring same-named local types, a final non-call expression); one program in fifteen is long (50-140 top-level block statements before further range loops); every set of cut points between statements for programs of up to 8 statements, 64 random cut sets beyond. non-trivial = the whole-program evaluation succeeds and defines at least one global; distinct by (program, cut set)")
+	r.SetRule("generated sequences of 5-15 single-line top-level statements (import, const, var with and without initialiser, :=, typed byte arithmetic, assignments, op-assign, parallel assignment, if/else-if with init, for, range, switch with multi-value cases - all with block-local variables -, function, method and type definitions before use, calls, slice/map/struct mutation, printing, block header variables named like existing globals, function literals declaring same-named local types, functions with a local type named like a global one followed by package-level blocks using the global one, init functions between statements, a final non-call expression); one program in fifteen is long (50-140 top-level block statements before further range loops); every set of cut points between statements for programs of up to 8 statements, 64 random cut sets beyond. non-trivial = the whole-program evaluation succeeds and defines at least one global; distinct by (program, cut set)")
 	r.Assume("metamorphic relation; cuts fall only on top-level statement boundaries; successive Evals share one WithEvalImports map as the REPL does")
 	n := r.N(400, 12000)
 	core.Parallel(n, func(i int) {
